@@ -419,6 +419,9 @@ func (c *Check) setDecoderShape(rule, fnName string, step int64) {
 	apps := p.callsIn(fn, descIs("builtin:append"))
 	okA := len(apps) == 1 && inLoop(apps[0].Block())
 	adv := elementLoopAdvance(fn, step)
+	if !(okA && adv) && len(apps) == 0 && inPlaceElementLoop(fn, step) {
+		okA, adv = true, true
+	}
 	c.require(okA && adv, rule, fnName, "element loop", p.Pos(fn.Pos()), fmt.Sprintf("one append per %d-octet element, cursor advances by %d", step, step))
 }
 
@@ -694,4 +697,117 @@ func elementLoopAdvance(fn *ssa.Function, step int64) bool {
 		}
 	}
 	return false
+}
+
+// inPlaceElementLoop recognises the third way of decoding a fixed-stride
+// list: the result is allocated with len(input)/step elements and element i
+// is decoded in place from input[step*i:], for every index of the result.
+func inPlaceElementLoop(fn *ssa.Function, step int64) bool {
+	found := false
+	allInstrs(fn, func(in ssa.Instruction) {
+		ia, ok := in.(*ssa.IndexAddr)
+		if !ok || !inLoop(ia.Block()) {
+			return
+		}
+		ms, ok := ia.X.(*ssa.MakeSlice)
+		if !ok {
+			return
+		}
+		// len(result) = len(input)/step
+		q, ok := ms.Len.(*ssa.BinOp)
+		if !ok || q.Op != token.QUO {
+			return
+		}
+		if c, isC := q.Y.(*ssa.Const); !isC || c.Value == nil || c.Int64() != step {
+			return
+		}
+		lc, ok := q.X.(*ssa.Call)
+		if !ok {
+			return
+		}
+		if b, isB := lc.Call.Value.(*ssa.Builtin); !isB || b.Name() != "len" {
+			return
+		}
+		input := lc.Call.Args[0]
+		// the index runs over the whole result (range form or counted form
+		// bounded by len(result)), and the input is sliced at step*index
+		idx := ia.Index
+		lo, hi, _, okSpan := loopSpanOver(idx, ms)
+		if !okSpan || lo != 0 || !hi {
+			return
+		}
+		for _, r := range *idx.Referrers() {
+			m, ok := r.(*ssa.BinOp)
+			if !ok || m.Op != token.MUL {
+				continue
+			}
+			other := m.Y
+			if other == idx {
+				other = m.X
+			}
+			if c, isC := other.(*ssa.Const); !isC || c.Value == nil || c.Int64() != step {
+				continue
+			}
+			for _, rr := range *m.Referrers() {
+				if sl, ok := rr.(*ssa.Slice); ok && sl.X == input && sl.Low == ssa.Value(m) {
+					found = true
+				}
+			}
+		}
+	})
+	return found
+}
+
+// loopSpanOver: idx is the index of a step-1 loop that starts at lo and is
+// bounded by len(of) (hi reports that bound was recognised).
+func loopSpanOver(idx ssa.Value, of ssa.Value) (lo int64, hi bool, head *ssa.BasicBlock, ok bool) {
+	var phi *ssa.Phi
+	start := int64(0)
+	var cmpX ssa.Value
+	switch x := idx.(type) {
+	case *ssa.Phi:
+		phi, cmpX = x, x
+	case *ssa.BinOp:
+		p, isPhi := x.X.(*ssa.Phi)
+		one, isC := x.Y.(*ssa.Const)
+		if x.Op != token.ADD || !isPhi || !isC || one.Value == nil || one.Int64() != 1 {
+			return 0, false, nil, false
+		}
+		phi, cmpX, start = p, x, 1
+	default:
+		return 0, false, nil, false
+	}
+	if len(phi.Edges) != 2 {
+		return 0, false, nil, false
+	}
+	b := phi.Block()
+	for i, e := range phi.Edges {
+		if b.Dominates(b.Preds[i]) {
+			bo, isB := e.(*ssa.BinOp)
+			if !isB || bo.Op != token.ADD || bo.X != ssa.Value(phi) {
+				return 0, false, nil, false
+			}
+			if one, isC := bo.Y.(*ssa.Const); !isC || one.Value == nil || one.Int64() != 1 {
+				return 0, false, nil, false
+			}
+		} else if c, isC := e.(*ssa.Const); isC && c.Value != nil {
+			start += c.Int64()
+		} else {
+			return 0, false, nil, false
+		}
+	}
+	iff, isIf := b.Instrs[len(b.Instrs)-1].(*ssa.If)
+	if !isIf {
+		return 0, false, nil, false
+	}
+	cmp, isB := iff.Cond.(*ssa.BinOp)
+	if !isB || cmp.Op != token.LSS || cmp.X != cmpX {
+		return 0, false, nil, false
+	}
+	if cl, isCall := cmp.Y.(*ssa.Call); isCall {
+		if bi, isBI := cl.Call.Value.(*ssa.Builtin); isBI && bi.Name() == "len" && cl.Call.Args[0] == of {
+			return start, true, b, true
+		}
+	}
+	return start, false, b, true
 }
